@@ -115,7 +115,7 @@ fn main() {
                     CommitQC { message: vote.clone(), signers: bitmap(&signers, n), signature: agg_commit(&vote, &signers, if corr == "nested_badsig" { "other_vote" } else { "ok" }) }
                 };
                 let m1 = ReplicaTimeout { view: view_of(3, gk), high_vote: None, high_qc: None };
-                let m2 = ReplicaTimeout { view: view_of(if corr == "viewmismatch" { 4 } else { 3 }, gk), high_vote: Some(v1(if corr == "hv_genesis" { "genesis" } else { "ok" })), high_qc: Some(nested) };
+                let m2 = ReplicaTimeout { view: view_of(if corr == "viewmismatch" { 4 } else if corr == "viewearlier" { 2 } else { 3 }, gk), high_vote: Some(v1(if corr == "hv_genesis" { "genesis" } else { "ok" })), high_qc: Some(nested) };
                 let m3 = ReplicaTimeout { view: view_of(3, gk), high_vote: Some(vprev("ok")), high_qc: None };
                 let mut map: BTreeMap<ReplicaTimeout, Signers> = BTreeMap::new();
                 let mut sigs = vec![];
